@@ -3,6 +3,7 @@ package main
 import (
 	"encoding/hex"
 	"fmt"
+	"go/types"
 	"strconv"
 )
 
@@ -92,6 +93,19 @@ func init() {
 		}
 		return &SliceV{obj: e.newObj(arr, "verifBytes "+tag), len: n, cap: n}
 	}
+	verifAPI["verifBytesLenOnly"] = func(e *Exec, args []Value, st string) Value {
+		tag, mx := argStr(args[0]), argInt(args[1])
+		n := e.fresh(tag, "u64", 64)
+		e.assume(Cmp(OpULe, n, BV(64, uint64(mx))), "length bound")
+		if n.IsConst() {
+			arr := &ArrayV{e: make([]Value, n.V)}
+			for i := range arr.e {
+				arr.e[i] = BV(8, 0)
+			}
+			return &SliceV{obj: e.newObj(arr, "verifBytesLenOnly"), len: int(n.V), cap: int(n.V)}
+		}
+		return &SliceV{obj: e.newObj(&ArrayV{}, "verifBytesLenOnly "+tag), symLen: n}
+	}
 	verifAPI["verifStr"] = func(e *Exec, args []Value, st string) Value {
 		tag, n := argStr(args[0]), argInt(args[1])
 		bs := make([]*Term, n)
@@ -127,6 +141,12 @@ func init() {
 		return nil
 	}
 	verifAPI["verifAssert"] = func(e *Exec, args []Value, st string) Value {
+		if c := args[0].(*Term); c.IsConst() && c.V != 0 {
+			// decided by the path split that made the condition concrete
+			e.Obligations++
+			e.Discharged++
+			return nil
+		}
 		e.obligation(args[0].(*Term), "assert", argStr(args[1]), "")
 		return nil
 	}
@@ -182,8 +202,125 @@ func init() {
 		}
 		return args[1]
 	}
+	verifAPI["verifSame"] = func(e *Exec, args []Value, st string) Value {
+		return e.deepEq(args[0], args[1], 0)
+	}
 	// verifIsSym reports whether the engine runs symbolically (false natively)
 	verifAPI["verifSymbolic"] = func(e *Exec, args []Value, st string) Value {
 		return Bool(e.concrete == nil)
 	}
+}
+
+// deepEq builds one term expressing deep equality of two values (nil and empty slices are equal).
+func (e *Exec) deepEq(a, b Value, depth int) *Term {
+	if depth > 40 {
+		unsup("verifSame: structure too deep (cyclic?)")
+	}
+	if isNil(a) || isNil(b) {
+		emptyOrNil := func(v Value) bool {
+			if isNil(v) {
+				return true
+			}
+			if s, ok := v.(*SliceV); ok {
+				return s.len == 0
+			}
+			if m, ok := v.(*MapV); ok {
+				return m.live() == 0
+			}
+			return false
+		}
+		return Bool(emptyOrNil(a) && emptyOrNil(b))
+	}
+	switch x := a.(type) {
+	case *Term:
+		return Eq(x, b.(*Term))
+	case *FloatV:
+		return fCmp(OpEq, x, b.(*FloatV))
+	case StrV, *SStrV:
+		return e.valEq(a, b)
+	case *StructV:
+		y := b.(*StructV)
+		r := tTrue
+		for i := range x.f {
+			r = And(r, e.deepEq(x.f[i], y.f[i], depth+1))
+		}
+		return r
+	case *ArrayV:
+		y := b.(*ArrayV)
+		r := tTrue
+		for i := range x.e {
+			r = And(r, e.deepEq(x.e[i], y.e[i], depth+1))
+		}
+		return r
+	case *SliceV:
+		y, ok := b.(*SliceV)
+		if !ok || x.len != y.len {
+			return tFalse
+		}
+		r := tTrue
+		for i := 0; i < x.len; i++ {
+			r = And(r, e.deepEq(x.at(i), y.at(i), depth+1))
+			if r == tFalse {
+				break
+			}
+		}
+		return r
+	case *Ptr:
+		y, ok := b.(*Ptr)
+		if !ok {
+			return tFalse
+		}
+		if x.obj == y.obj && pathEq(x.path, y.path) && x.symIdx == y.symIdx {
+			return tTrue
+		}
+		return e.deepEq(e.load(x, "verifSame"), e.load(y, "verifSame"), depth+1)
+	case *IfaceV:
+		y, ok := b.(*IfaceV)
+		if !ok || !types.Identical(x.t, y.t) {
+			return tFalse
+		}
+		return e.deepEq(x.v, y.v, depth+1)
+	case *MapV:
+		y, ok := b.(*MapV)
+		if !ok || x.live() != y.live() {
+			// with symbolic keys the live counts may still differ in meaning; keys must be concrete here
+			if !ok {
+				return tFalse
+			}
+		}
+		r := tTrue
+		for _, en := range x.ent {
+			if en.deleted {
+				continue
+			}
+			found := tFalse
+			for _, en2 := range y.ent {
+				if en2.deleted {
+					continue
+				}
+				found = Or(found, And(e.valEq(en.key, en2.key), e.deepEq(en.val, en2.val, depth+1)))
+			}
+			r = And(r, found)
+		}
+		for _, en2 := range y.ent {
+			if en2.deleted {
+				continue
+			}
+			found := tFalse
+			for _, en := range x.ent {
+				if en.deleted {
+					continue
+				}
+				found = Or(found, e.valEq(en.key, en2.key))
+			}
+			r = And(r, found)
+		}
+		return r
+	case *FuncV:
+		return Bool(a == b)
+	case *NativeV:
+		return e.valEq(a, b)
+	}
+	unsup("verifSame on %T", a)
+	return nil
 }
